@@ -44,7 +44,9 @@ func effectiveBindings(d state.VerifC11Dump) map[string]string {
 // diffDumps lists the differences between the cache and a fresh recomputation, by category.
 func diffDumps(a, f state.VerifC11Dump) []string {
 	var out []string
-	add := func(cat, format string, args ...interface{}) { out = append(out, cat+": "+fmt.Sprintf(format, args...)) }
+	add := func(cat, format string, args ...interface{}) {
+		out = append(out, cat+": "+fmt.Sprintf(format, args...))
+	}
 	ids := map[string]bool{}
 	for id := range a.Nodes {
 		ids[id] = true
